@@ -235,10 +235,12 @@ def clone(node):
 
 
 def norm(node):
-    """Normalised source text of a node (whitespace/quote independent)."""
+    """Source text of a node (whitespace / quote independent).  The result is a CanonStr: it
+    also compares equal to any other spelling of the same canonical form (see canon.py)."""
     if isinstance(node, str):
         return node
-    return ast.unparse(node)
+    from .canon import CanonStr
+    return CanonStr(ast.unparse(node), node)
 
 
 def parent(node):
@@ -357,6 +359,7 @@ class Ctx:
         self.models = []
         self.extra = {}
         self.errors = []
+        self._normalized = {}
         self._rule = None
         self._template = None
 
@@ -366,11 +369,26 @@ class Ctx:
         if rid not in self.rules:
             self.rules[rid] = {"id": rid, "template": template, "what": text, "instances": 0, "refuted": 0}
 
-    def func(self, rel, qualname):
+    def func(self, rel, qualname, raw=False):
         f = self.repo.func(rel, qualname)
         end = getattr(f.node, "end_lineno", f.node.lineno)
         self.functions["%s::%s" % (rel, qualname)] = [f.node.lineno, end]
-        return f
+        if raw or os.environ.get("TYVERIF_NO_NORMALIZE"):
+            return f
+        key = (rel, qualname)
+        if key not in self._normalized:
+            from .normalize import normalized_func
+            try:
+                node, inlined = normalized_func(f)
+            except RecursionError:
+                node, inlined = f.node, []
+            nf = Func(f.module, node, f.cls)
+            nf.raw = f
+            nf.inlined = inlined
+            if inlined:
+                self.count("helpers_inlined", len(inlined))
+            self._normalized[key] = nf
+        return self._normalized[key]
 
     def mod(self, rel):
         return self.repo.mod(rel)
